@@ -13,6 +13,7 @@ from ..astutil import calls_in, dotted, enclosing_try, enclosing_withs, name_sto
 from ..cfg import no_exc
 from ..report import Registry, chain, sub
 from ._helpers_rules_d import call_nodes, callee_is, guard_atom_set, kw, qualname
+from ._helpers_rob_i import bind_call, enclosing_function, function_params, nf
 
 R = Registry(
     "C45",
@@ -45,6 +46,9 @@ PROPS = "orm/properties.py"
 RELS = "orm/relationships.py"
 IFACE = "orm/interfaces.py"
 MERGE = f"{SESSION}::Session._merge"
+#: callees of Session._merge the rules match by name (never inlined into the normal form)
+MERGE_VOCABULARY = ("get", "_merge", "merge", "_update_impl", "_save_or_update_state", "_autoflush", "_flush_warning", "new_instance",
+                    "_commit_all", "_get_state_attr_by_column", "_identity_key_from_state")
 
 
 # ------------------------------------------------------------------------------------------ anchors of _merge
@@ -52,7 +56,9 @@ class _M:
     """Names and CFG nodes of Session._merge, discovered from its structure."""
 
     def __init__(self, ctx):
-        f = self.f = ctx.func(MERGE)
+        # normal form: private helpers extracted from _merge are inlined at their call, `x = a.b` aliases resolved;
+        # the calls the rules recognise by name stay calls
+        f = self.f = nf(ctx, ctx.func(MERGE), keep=MERGE_VOCABULARY)
         g = self.g = ctx.cfg(f)
         ctx.require(len(f.params) >= 7 and "load" in f.params, "_merge(self, state, state_dict, *, options, load, _recursive, _resolve_conflict_map) signature not understood")
         self.state, self.sdict, self.rec, self.res = f.params[1], f.params[2], f.params[-2], f.params[-1]
@@ -421,7 +427,8 @@ def _autoflush_disabled(pm, call) -> Optional[str]:
 @R.rule("C45-R6", floor=7, template="T-SIBLING/T-GUARD",
         desc="every call of Session._merge is either top-level (fresh {} for both memos) and then runs with autoflush "
              "disabled (inside `with <session>.no_autoflush` or autoflush=False/finally), or recursive (passes its own "
-             "_recursive, _resolve_conflict_map and load through)")
+             "_recursive, _resolve_conflict_map and load through); a private helper that wraps the recursive call is "
+             "followed to its call sites, which are judged the same way")
 def r6(ctx):
     callee = ctx.func(MERGE)
     rec_kw, res_kw = callee.params[-2], callee.params[-1]
@@ -433,14 +440,15 @@ def r6(ctx):
         for c in calls_in(m.tree, into_nested=True):
             if isinstance(c.func, ast.Attribute) and c.func.attr == "_merge" and kw(c, rec_kw) is not None:
                 sites.append((m, pm, c))
-    ctx.require(len(sites) >= 5, f"only {len(sites)} Session._merge call sites found")
+    ctx.require(len(sites) >= 4, f"only {len(sites)} Session._merge call sites found")
     counts: Dict[str, int] = {}
-    for m, pm, c in sorted(sites, key=lambda s: (s[0].relpath, s[2].lineno)):
+
+    def judge(m, pm, c, a, b, ld, what, depth):
         q = f"{m.relpath}::{qualname(pm, c)}"
-        counts[q] = counts.get(q, 0) + 1
-        key = f"{q}:_merge" + (f":{counts[q] - 1}" if counts[q] > 1 else "")
+        counts[(q, what)] = counts.get((q, what), 0) + 1
+        n = counts[(q, what)]
+        key = f"{q}:{what}" + (f":{n - 1}" if n > 1 else "")
         loc = f"{m.path}:{c.lineno}"
-        a, b, ld = kw(c, rec_kw), kw(c, res_kw), kw(c, "load")
         fresh = isinstance(a, ast.Dict) and not a.keys and isinstance(b, ast.Dict) and not b.keys
         if fresh:
             how = _autoflush_disabled(pm, c)
@@ -448,19 +456,41 @@ def r6(ctx):
                       "top-level Session._merge call that does not run with autoflush disabled (its siblings do): the Session.get() issued for a related "
                       "object autoflushes the half-populated merged instance -- premature INSERT with missing attributes (IntegrityError for NOT NULL columns) "
                       "where Session.merge() of the same object succeeds", f"fresh memos, {how}", loc)
-        else:
-            encl = qualname(pm, c).rsplit(".", 1)[-1]
-            good = dotted(a) == rec_kw or (isinstance(a, ast.Name) and a.id.lstrip("_") == rec_kw.lstrip("_"))
-            good = good and (dotted(b) == res_kw or (isinstance(b, ast.Name) and b.id.lstrip("_") == res_kw.lstrip("_"))) and dotted(ld) == "load"
-            # the names must be parameters of the enclosing function (passed through, not rebuilt)
-            fnode = c
-            while fnode is not None and not isinstance(fnode, (ast.FunctionDef, ast.AsyncFunctionDef)):
-                fnode = pm.get(fnode)
-            params = {x.arg for x in fnode.args.args + fnode.args.kwonlyargs} if fnode is not None else set()
-            good = good and {dotted(a), dotted(b), "load"} <= params
-            ctx.check(good, key, f"recursive _merge call in {encl} does not pass its own load / _recursive / _resolve_conflict_map through "
-                                 f"(got load={unparse(ld) if ld else None}, {rec_kw}={unparse(a)}, {res_kw}={unparse(b)}): cycles are not cut and one source object is copied repeatedly",
-                      "load and both memos passed through", loc)
+            return
+        fnode = enclosing_function(pm, c)
+        params = function_params(fnode) if fnode is not None else []
+        encl = fnode.name if fnode is not None else "<module>"
+        own = all(isinstance(x, ast.Name) and x.id in params for x in (a, b, ld)) and len({x.id for x in (a, b, ld)}) == 3
+        msg = (f"recursive {what} call in {encl} does not pass its own load / _recursive / _resolve_conflict_map through "
+               f"(got load={unparse(ld) if ld else None}, {rec_kw}={unparse(a) if a else None}, {res_kw}={unparse(b) if b else None}): cycles are not cut and one source object is copied repeatedly")
+        if not own:
+            ctx.violation(key, msg, loc)
+            return
+        if encl == "merge" and len(params) == 9:
+            # a MapperProperty.merge implementation: the roles are fixed by the signature Session._merge calls positionally (C45-R1)
+            ctx.check((ld.id, a.id, b.id) == (params[6], params[7], params[8]), key, msg, "load and both memos passed through", loc)
+            return
+        # a helper wrapping the recursion: its own call sites decide what the three parameters are
+        callers = []
+        if depth < 2 and encl.startswith("_") and not encl.startswith("__"):
+            for c2 in calls_in(m.tree, into_nested=True):
+                if c2 is c:
+                    continue
+                fn2 = c2.func
+                if (isinstance(fn2, ast.Attribute) and fn2.attr == encl and isinstance(fn2.value, ast.Name) and fn2.value.id in ("self", "cls")) or (isinstance(fn2, ast.Name) and fn2.id == encl):
+                    callers.append(c2)
+        if not callers:
+            like = a.id.lstrip("_") == rec_kw.lstrip("_") and b.id.lstrip("_") == res_kw.lstrip("_") and ld.id == "load"
+            ctx.check(like, key, msg, "load and both memos passed through", loc)
+            return
+        ctx.ok(key, f"helper {encl}: its parameters ({ld.id}, {a.id}, {b.id}) are judged at {len(callers)} call site(s)")
+        for c2 in callers:
+            bound = bind_call(c2, fnode, bound_method=isinstance(c2.func, ast.Attribute))
+            ctx.require(bound is not None, f"{q}: call of helper {encl} at line {c2.lineno} is not understood")
+            judge(m, pm, c2, bound[a.id], bound[b.id], bound[ld.id], encl, depth + 1)
+
+    for m, pm, c in sorted(sites, key=lambda s_: (s_[0].relpath, s_[2].lineno)):
+        judge(m, pm, c, kw(c, rec_kw), kw(c, res_kw), kw(c, "load"), "_merge", 0)
 
 
 # ------------------------------------------------------------------------------------------ R7
@@ -493,10 +523,18 @@ def r7(ctx):
         good = good and found
     ctx.check(good, f"{f.key}:mismatch-raises", "StaleDataError is not raised exactly when the source's version differs from the merged instance's: a stale detached copy "
                                                 "overwrites a newer row", "raise under existing_version != merged_version", f.loc)
-    vtests = [n.id for n in g.nodes if n.kind == "test" and any("version_id_col" in a and not pol for a, pol in test_atoms(n.stmt.test)) or
-              (n.kind == "test" and any(a.endswith("version_id_col is None") and not pol for a, pol in test_atoms(n.stmt.test)))]
-    ctx.require(vtests, "_merge: no `mapper.version_id_col is not None` test")
-    w = g.must_pass([g.entry], m.prop_merge, tests, edge_ok=lambda a, b, lab: lab != "exc" and not (a in vtests and lab == "false"))
+    # the outcome of a `version_id_col is [not] None` test that means "this mapper is not versioned" (either spelling / polarity)
+    unversioned = set()
+    for n in g.nodes:
+        if n.kind != "test":
+            continue
+        ats = test_atoms(n.stmt.test)
+        if len(ats) == 1 and ats[0][0].endswith("version_id_col is None"):
+            unversioned.add((n.id, "true" if ats[0][1] else "false"))
+        elif any(a.endswith("version_id_col is None") and not pol for a, pol in ats):
+            unversioned.add((n.id, "false"))    # `version_id_col is not None and ...` taken false
+    ctx.require(unversioned, "_merge: no `mapper.version_id_col is not None` test")
+    w = g.must_pass([g.entry], m.prop_merge, tests, edge_ok=lambda a, b, lab: lab != "exc" and (a, lab) not in unversioned)
     ctx.check(bool(tests) and w is None, f"{f.key}:version-check-before-copy", "attributes are copied onto the merged instance before the version comparison", "comparison dominates the property loop", f.loc, w)
 
 
